@@ -631,6 +631,8 @@ def _operand_sql(term: Any, ctx: SqlContext) -> str:
     Renders a term that is used as an operand of an arithmetic operator, a comparison or a predicate.  Criteria bind
     weaker than those operators, so they are enclosed in parentheses.
     """
+    # an operand never prints its own alias: aliases name select-list items, not parts of an expression
+    ctx = ctx.copy(with_alias=False)
     if isinstance(term, ComplexCriterion):
         return term.get_sql(ctx.copy(subcriterion=True))
     sql = term.get_sql(ctx)
@@ -970,7 +972,7 @@ class ContainsCriterion(Criterion):
         self.container = self.container.replace_table(current_table, new_table)
 
     def get_sql(self, ctx: SqlContext) -> str:
-        container_ctx = ctx.copy(subquery=True)
+        container_ctx = ctx.copy(subquery=True, with_alias=False)
         sql = "{term} {not_}IN {container}".format(
             term=_operand_sql(self.term, ctx),
             container=self.container.get_sql(container_ctx),
